@@ -480,13 +480,14 @@ def Errors.toList (e : Errors) : List Pos := e.first :: e.more
 inductive ParseResult where
   | program (p : Program)
   | errors (e : Errors)
-  /-- model artefact: recursion fuel exhausted (never observed; `fuel = number of tokens + 2`) -/
+  /-- model artefact: recursion fuel exhausted. Impossible: `parse_ne_outOfFuel` (FuelProofs.lean);
+  fuel = 2 · number of tokens + 2 (a nested constant costs two units per bracket). -/
   | outOfFuel
   deriving Repr
 
 def parseToks (toks : List LTok) : ParseResult :=
   let last := toks.getLast?.getD default
-  let F := toks.length + 2
+  let F := 2 * toks.length + 2
   match parseProgram F ⟨toks, false, ⟨1, 1⟩, [], 0, 0, []⟩ with
   | .ok p st => if last.err then .errors ⟨last.pos, []⟩ else .program (resolve st.recs p)
   | .fail i =>
